@@ -71,6 +71,7 @@ def rule_a(ctx, wfns, hfns, kwfn, rule="C10.a-header-keys-agree", writers=("writ
     # registered keys
     reg = {}
     ignored = set()
+    cond_reg = {}  # key -> set of `type of data` values under which it is registered (None = unconditionally)
     for f in hfns:
         for c in f.calls():
             short = (c.callee or "").split("::")[-1]
@@ -80,6 +81,14 @@ def rule_a(ctx, wfns, hfns, kwfn, rule="C10.a-header-keys-agree", writers=("writ
                     lit = [m.get("v") for m in args[0].walk() if m.k == "StringLiteral"]
                     if lit:
                         k = standardise(lit[0])
+                        if short in ("add_key", "add_vectorised_key", "ignore_key"):
+                            guard = None
+                            for a in c.ancestors():
+                                if a.k == "IfStmt" and a.c and any(x is c for x in a.c[1].walk()):
+                                    gl = [m.get("v") for m in a.c[0].walk() if m.k == "StringLiteral"]
+                                    if gl and "type_of_data" in key(a.c[0], True):
+                                        guard = gl[0]
+                            cond_reg.setdefault(k, set()).add(guard)
                         if short == "ignore_key":
                             ignored.add(k)
                         else:
@@ -124,11 +133,11 @@ def rule_a(ctx, wfns, hfns, kwfn, rule="C10.a-header-keys-agree", writers=("writ
                 vect = False
                 if mm:
                     keytxt, vect = mm.group(1), bool(mm.group(2))
-                elif re.fullmatch(r"[A-Za-z!][A-Za-z0-9 ()/_!]*", piece.strip()) and len(piece.strip()) > 3:
-                    # a bare key fragment streamed before "[" << i << "] := "
+                elif re.fullmatch(r"[A-Za-z!][A-Za-z0-9 ()/_!]*\[?", piece.strip()) and len(piece.strip()) > 3:
+                    # a bare key fragment streamed before "[" << i << "] := "   (or  "key[" << i << "] := ")
                     nxt = _next_string_in_stream(m)
-                    if nxt is not None and nxt.startswith("["):
-                        keytxt, vect = piece.strip(), True
+                    if nxt is not None and nxt.startswith("]" if piece.strip().endswith("[") else "["):
+                        keytxt, vect = piece.strip().rstrip("["), True
                 if keytxt is None:
                     continue
                 k = standardise(keytxt)
@@ -145,6 +154,14 @@ def rule_a(ctx, wfns, hfns, kwfn, rule="C10.a-header-keys-agree", writers=("writ
                         det = "written %s but registered %s" % ("vectorised" if vect else "scalar", "/".join("vectorised" if x else "scalar" for x in sorted(modes)))
                 else:
                     ok, det = False, "the writer emits this key but no Interfile header class registers or ignores it: it is lost (or rejected) on reading"
+                # a key the reader registers only for one `type of data` must be written only for that modality
+                only_for = cond_reg.get(k)
+                all_types = {g for gs in cond_reg.values() for g in gs if g is not None}
+                if ok and only_for and None not in only_for and not only_for >= all_types:
+                    modality_guard = any(a.k == "IfStmt" and a.c and re.search(r"is_spect|imaging_modality|get_modality", key(a.c[0], True)) for a in m.ancestors())
+                    if not modality_guard:
+                        ok = False
+                        det = "the reader registers this key only when `type of data` is %s, but the writer emits it for every modality: for other data the key is unknown to the reader and ignored" % " / ".join(sorted(only_for))
                 ctx.ob(rule, f.qn, "key:" + k + ("[]" if vect else ""), ok, "%s:%d" % (f.file, m.line), det)
                 n += 1
     return n
@@ -560,8 +577,8 @@ def rule_g_omitted_only_at_reader_default(ctx, wfns, hfns):
             mm = re.match(r"\s*([^:=\[\]]+?)\s*(\[[^\]]*\])?\s*:=\s*$", txt)
             if mm:
                 keytxt, vect = mm.group(1), bool(mm.group(2))
-            elif re.fullmatch(r"[A-Za-z!][A-Za-z0-9 ()/_!]*", txt.strip()) and len(txt.strip()) > 3 and (_next_string_in_stream(m) or "").startswith("["):
-                keytxt, vect = txt.strip(), True
+            elif re.fullmatch(r"[A-Za-z!][A-Za-z0-9 ()/_!]*\[?", txt.strip()) and len(txt.strip()) > 3 and (_next_string_in_stream(m) or "").startswith("]" if txt.strip().endswith("[") else "["):
+                keytxt, vect = txt.strip().rstrip("["), True
             else:
                 continue
             top = m
@@ -582,7 +599,7 @@ def rule_g_omitted_only_at_reader_default(ctx, wfns, hfns):
                     continue
                 if after and o.strip().k not in ("StringLiteral", "CharacterLiteral"):
                     # the index of a vectorised key is not its value
-                    if vect and not vals and o.strip().k == "DeclRefExpr" and "int" in (o.strip().type or "") and (_next_string_in_stream(m) or "").startswith("["):
+                    if vect and not vals and o.strip().k == "DeclRefExpr" and "int" in (o.strip().type or "") and (_next_string_in_stream(m) or "").startswith(("[", "]")):
                         vect = "indexed"
                         continue
                     vals.append(o)
@@ -716,10 +733,46 @@ def rule_h_header_stream_format_unchanged(ctx, wfns, control_fns):
         det = "no persistent formatting change on the header stream"
         if shared:
             cfg = _CFG(f)
-            restores = {m.i for m, what in shared if what in ("flags()", "precision()", "copyfmt()")}
-            first = [m for m, what in shared if m.i not in restores and m.i in cfg.pos]
-            ok = bool(restores) and bool(first) and cfg.must_pass_before_exit(first, lambda x: x.i in restores) is None
-            det = "formatting is changed and put back before returning" if ok else "the header stream is switched to `%s` and left that way: every number written to the header afterwards (scale factors, offsets, sizes) is formatted differently from what the reader and the quantisation bound assume" % ", ".join(sorted({w for _m, w in shared}))
+            defs = LocalDefs(f)
+
+            def in_graph(x):
+                while x is not None and x.i not in cfg.pos:
+                    x = x.parent
+                return x
+
+            def saved_by(m):
+                """m = s.precision(v) / s.flags(v) / s.copyfmt(v): the member whose earlier result v holds (a restore), else None"""
+                a = m.call_args()
+                a = a[0].strip() if a else None
+                if a is None or a.k != "DeclRefExpr" or a.get("dk") != "local":
+                    return None
+                d = a.get("d")
+                srcs = ([defs.decl[d].c[0]] if defs.decl.get(d) is not None and defs.decl[d].c else []) + list(defs.writes.get("v%d" % d, []))
+                if len(srcs) != 1:
+                    return None
+                src = srcs[0].strip()
+                if src.k == "CXXMemberCallExpr" and (src.callee or "").split("::")[-1] in ("precision", "flags"):
+                    return (src.callee or "").split("::")[-1]
+                if "basic_ios" in (a.type or "") or "ios_base" in (a.type or ""):
+                    return "copyfmt"
+                return None
+
+            KIND = {"precision()": "precision", "std::setprecision": "precision", "fill()": "fill", "std::setfill": "fill", "imbue()": "locale"}
+            restores, changes = {}, []
+            for m, what in shared:
+                sv = saved_by(m) if what in ("flags()", "precision()", "copyfmt()") else None
+                if sv is not None and sv == what[:-2] or (what == "copyfmt()" and sv == "copyfmt"):
+                    restores[m.i] = "all" if what == "copyfmt()" else what[:-2]
+                else:
+                    changes.append((m, KIND.get(what, "flags")))
+            bad = []
+            for m, kind in changes:
+                g = in_graph(m)
+                acc = {i for i, r in restores.items() if r in (kind, "all")}
+                if g is None or not acc or cfg.must_pass_before_exit([g], lambda x: x.i in acc and x.i != g.i) is not None:
+                    bad.append(m)
+            ok = not bad
+            det = "formatting is changed and the saved state is put back on every path to the return" if ok else "the header stream is switched to `%s` and left that way: every number written to the header afterwards (scale factors, offsets, sizes) is formatted differently from what the reader and the quantisation bound assume" % ", ".join(sorted({w for m_, w in shared if any(m_ is b for b in bad)}))
         ctx.ob("C10.h-header-stream-format-unchanged", f.qn + "(" + f.sig[:30] + ")", "formatting-state", ok, (shared[0][0] if shared else f).where(), det)
         n += 1
     # positive control: the matcher must see the manipulators ExamInfo::parameter_info streams into its own string stream
@@ -727,6 +780,314 @@ def rule_h_header_stream_format_unchanged(ctx, wfns, control_fns):
     if not ctrl:
         ctx.fail_broken("control for C10.h failed: no sticky manipulator recognised in ExamInfo::parameter_info (the matcher is blind)")
     ctx.stats["sticky_manipulator_control_hits"] = len(ctrl)
+    return n
+
+
+def _emissions(f):
+    """(standardised key, vectorised?, key literal node, whole << statement, operand nodes streamed after the key literal) for
+    every `key := value` emission of a header writer"""
+    out = []
+    for m in f.walk():
+        if m.k != "StringLiteral":
+            continue
+        txt = m.get("v") or ""
+        vect = False
+        mm = re.match(r"\s*([^:=\[\]\n]+?)\s*(\[[^\]]*\])?\s*:=\s*([^\n]*)\n?$", txt)
+        inline = None
+        if mm:
+            keytxt, vect, inline = mm.group(1), bool(mm.group(2)), mm.group(3).strip()
+        elif re.fullmatch(r"[A-Za-z!][A-Za-z0-9 ()/_!]*\[?", txt.strip()) and len(txt.strip()) > 3 and (_next_string_in_stream(m) or "").startswith("]" if txt.strip().endswith("[") else "["):
+            keytxt, vect = txt.strip().rstrip("["), True
+        else:
+            continue
+        top = m
+        for a in m.ancestors():
+            if a.k == "CXXOperatorCallExpr" and a.op == "<<":
+                top = a
+            else:
+                break
+        ops = []
+        node = top
+        while node.k == "CXXOperatorCallExpr" and node.op == "<<" and len(node.c) == 2:
+            ops.insert(0, node.c[1])
+            node = node.c[0].strip()
+        after, vals = False, []
+        for o in ops:
+            if any(x is m for x in o.walk()):
+                after = True
+                continue
+            if after:
+                vals.append(o)
+        out.append((standardise(keytxt), vect, m, top, vals, inline))
+    return out
+
+
+def reader_value_lists(hfns):
+    """key -> (index field, list field, [values in index order]) for keys registered with a list of admissible values"""
+    lists = {}
+    for f in hfns:
+        for c in f.calls():
+            if (c.callee or "").split("::")[-1] == "push_back" and c.k == "CXXMemberCallExpr" and c.c:
+                fld = _field_root(c.c[0])
+                lit = [m.get("v") for a in c.call_args() for m in a.walk() if m.k == "StringLiteral"]
+                if fld and lit and fld.endswith("_values"):
+                    lists.setdefault(fld, []).append((c.line, lit[0]))
+    out = {}
+    for f in hfns:
+        for c in f.calls():
+            if (c.callee or "").split("::")[-1] != "add_key":
+                continue
+            args = c.call_args()
+            lit = [m.get("v") for m in args[0].walk() if m.k == "StringLiteral"] if args else []
+            flds = [_field_root(a.strip().c[0]) for a in args[1:] if a.strip().k == "UnaryOperator" and a.strip().op == "&" and a.strip().c]
+            flds = [x for x in flds if x]
+            if lit and len(flds) >= 2 and flds[-1] in lists:
+                out[standardise(lit[0])] = (flds[-2], flds[-1], [v for _l, v in lists[flds[-1]]])
+    return out
+
+
+def rule_i_enumerated_values_agree(ctx, wfns, hfns):
+    """Keys whose value is one of a list: the reader stores the INDEX of the value in its list and (for patient orientation/rotation)
+    casts that index to the enumeration.  (1) every literal value the writer can emit for such a key is in the reader's list;
+    (2) where the writer maps enumerators to strings by a switch, the string for enumerator e is the list entry at index e, distinct
+    enumerators are written distinctly, and every list entry except the reader's default has a case."""
+    RULE = "C10.i-enumerated-values-agree"
+    vl = reader_value_lists(hfns)
+    ctx.stats["reader_value_lists"] = len(vl)
+    if len(vl) < 6:
+        ctx.fail_broken("only %d keys with a value list recognised in the header classes" % len(vl))
+        return 0
+    # reader: index field -> enumeration it is cast to, and its default
+    cast_of, dflt = {}, {}
+    for f in hfns:
+        for m in f.walk():
+            if m.k == "Cast" and m.get("ck") == "CXXStaticCastExpr" and m.c:
+                fr = _field_root(m.c[0])
+                if fr and fr.endswith("_index"):
+                    cast_of[fr] = (m.type or "").split("::")[-1]
+            if m.k == "BinaryOperator" and m.op == "=" and len(m.c) == 2:
+                fr = _field_root(m.c[0])
+                cv = _const_of(m.c[1])
+                if fr and fr.endswith("_index") and isinstance(cv, float) and f.short in ("InterfileHeader", "MinimalInterfileHeader", "InterfileImageHeader"):
+                    dflt.setdefault(fr, set()).add(int(cv))
+    n = 0
+    for f in wfns:
+        if f.body is None or not f.short.startswith(("write_basic_interfile_image_header", "write_interfile_")):
+            continue
+        defs = LocalDefs(f)
+        streams = sorted((x.line, x.get("d")) for x in f.walk() if x.k == "VarDecl" and "ofstream" in (x.get("t") or ""))
+        main_stream = streams[0][1] if streams else None
+        for k, vect, m, top, vals, inline in _emissions(f):
+            if k not in vl:
+                continue
+            roots_ = [x.get("d") for x in top.walk() if x.k == "DeclRefExpr" and "ofstream" in (x.type or "")]
+            if main_stream is not None and roots_ and roots_[0] != main_stream:
+                continue  # the Analyze-style .ahv copy is not read back by STIR
+            idxf, lstf, values = vl[k]
+            svalues = [standardise(v) for v in values]
+            emitted = []  # (literal text, node)
+            sw_var = None
+            if inline:
+                emitted.append((inline, m))
+            for o in vals:
+                for x in o.walk():
+                    if x.k == "StringLiteral" and (x.get("v") or "").strip():
+                        emitted.append(((x.get("v") or "").strip(), x))
+                os_ = o.strip()
+                if os_.k == "DeclRefExpr" and os_.get("dk") == "local" and "string" in (os_.type or ""):
+                    sw_var = os_.get("d")
+            if not inline and not vals:
+                # `os << "key := ";` followed by statements that stream the value
+                st = top
+                while st.parent is not None and st.parent.k not in ("CompoundStmt",):
+                    st = st.parent
+                sibs = st.parent.c if st.parent is not None else []
+                idx = next((i for i, x in enumerate(sibs) if x is st), None)
+                if idx is not None and idx + 1 < len(sibs):
+                    for x in sibs[idx + 1].walk():
+                        if x.k == "StringLiteral" and (x.get("v") or "").strip():
+                            emitted.append(((x.get("v") or "").strip(), x))
+            if sw_var is not None:
+                # values of a local string: every literal assigned to it, except those excluded by a guard `var != "lit"` around the emission
+                excluded = set()
+                for a in top.ancestors():
+                    if a.k == "IfStmt" and a.c:
+                        kk = key(a.c[0])
+                        mm = re.fullmatch(r'\(!= v%d "([^"]*)"\)' % sw_var, kk)
+                        if mm:
+                            excluded.add(mm.group(1))
+                for w in ([defs.decl[sw_var].c[0]] if defs.decl.get(sw_var) is not None and defs.decl[sw_var].c else []) + list(defs.writes.get("v%d" % sw_var, [])):
+                    for x in w.walk():
+                        if x.k == "StringLiteral" and (x.get("v") or "") not in excluded and (x.get("v") or "").strip():
+                            emitted.append(((x.get("v") or "").strip(), x))
+            if not emitted:
+                continue
+            bad = [(t, x) for t, x in emitted if standardise(t) not in svalues]
+            ok = not bad
+            ctx.ob(RULE, f.qn, "values-of:" + k, ok, (bad[0][1] if bad else m).where(), "every value written for `%s` (%s) is in the reader's list" % (k, ", ".join(sorted({t for t, _x in emitted}))) if ok else "`%s := %s` is written but the reader's list for this key (%s) does not contain it: the value is lost (index -1) on reading" % (k, bad[0][0], ", ".join(values)))
+            n += 1
+            # (2) switch over the enumeration the reader casts the index to
+            if sw_var is None or idxf not in cast_of:
+                continue
+            en = cast_of[idxf]
+            sws = [x for x in f.walk() if x.k == "SwitchStmt" and any(c.k == "CaseStmt" and c.c and (c.c[0].strip().type or "").split("::")[-1] == en for c in x.walk())]
+            if len(sws) != 1:
+                ctx.unrec(f.qn, "no single switch over %s found for key `%s`" % (en, k))
+                continue
+            cases = {}
+            for c in sws[0].walk():
+                if c.k != "CaseStmt" or "cv" not in c.d:
+                    continue
+                lit = None
+                for x in c.walk():
+                    if x.k == "CXXOperatorCallExpr" and x.op == "=" and x.c and x.c[0].strip().k == "DeclRefExpr" and x.c[0].strip().get("d") == sw_var:
+                        ll = [y.get("v") for y in x.walk() if y.k == "StringLiteral"]
+                        if ll:
+                            lit = ll[0]
+                            break
+                cases[int(c.get("cv"))] = (lit, c)
+            wrong = []
+            for v, (lit, c) in sorted(cases.items()):
+                if lit is None:
+                    wrong.append((c, "the case for enumerator %d assigns no value" % v))
+                elif v >= len(values) or standardise(lit) != svalues[v]:
+                    wrong.append((c, "enumerator %s (= %d) is written as `%s`, which the reader turns into index %s, not %d" % ((c.c[0].strip().get("n") or "?"), v, lit, svalues.index(standardise(lit)) if standardise(lit) in svalues else "-1", v)))
+            d0 = dflt.get(idxf, set())
+            missing = [i for i in range(len(values)) if i not in cases and i not in d0]
+            if missing:
+                wrong.append((sws[0], "no case for the enumerator(s) with value %s (%s): they are written as the default and read back as something else" % (missing, ", ".join(values[i] for i in missing))))
+            ok = not wrong
+            ctx.ob(RULE, f.qn, "switch:" + k, ok, (wrong[0][0] if wrong else sws[0]).where(), "each of the %d enumerators of %s is written as the reader's list entry of the same index; the remaining entry is the reader's default" % (len(cases), en) if ok else wrong[0][1])
+            n += 1
+    return n
+
+
+def _conjuncts(c):
+    c = c.strip()
+    if c.k == "BinaryOperator" and c.op == "&&":
+        return _conjuncts(c.c[0]) + _conjuncts(c.c[1])
+    return [c]
+
+
+def _implies(op_w, c_w, op_r, c_r):
+    """x op_w c_w  =>  x op_r c_r  (op in >, >=)"""
+    if op_r == ">":
+        return c_w > c_r or (c_w == c_r and op_w == ">")
+    return c_w >= c_r
+
+
+def rule_j_guards_agree(ctx, wfns, hfns):
+    """Exam information with a `not set` value (thresholds of -1): the writer emits it under a condition on the getters, the reader
+    hands what it parsed to the setters under a condition on the parsed values.  Whatever the writer's condition lets through must
+    pass the reader's: per attribute X, the writer's bound on get_X() implies the reader's bound on the argument of set_X()."""
+    RULE = "C10.j-writer-reader-guards-agree"
+    rcond = {}  # X -> (op, const, node)
+    for f in hfns:
+        if f.body is None or f.short != "post_processing":
+            continue
+        for m in f.walk():
+            if m.k != "IfStmt" or len(m.c) < 2:
+                continue
+            arg_of = {}
+            for c in m.c[1].walk():
+                sh = (c.callee or "").split("::")[-1] if c.is_call() else ""
+                if sh.startswith("set_") and c.call_args() and "ExamInfo" in (c.callee or ""):
+                    arg_of[key(c.call_args()[0])] = sh[4:]
+            for cj in _conjuncts(m.c[0]):
+                if cj.k == "BinaryOperator" and cj.op in (">", ">=") and key(cj.c[0]) in arg_of and isinstance(_const_of(cj.c[1]), float):
+                    rcond.setdefault(arg_of[key(cj.c[0])], []).append((cj.op, _const_of(cj.c[1]), cj))
+    n = 0
+    for f in wfns:
+        if f.body is None or not f.short.startswith(("write_basic_interfile_image_header", "write_interfile_")):
+            continue
+        for m in f.walk():
+            if m.k != "IfStmt" or len(m.c) < 2:
+                continue
+            for cj in _conjuncts(m.c[0]):
+                if not (cj.k == "BinaryOperator" and cj.op in (">", ">=") and isinstance(_const_of(cj.c[1]), float)):
+                    continue
+                g = cj.c[0].strip()
+                sh = (g.callee or "").split("::")[-1] if g.is_call() else ""
+                if not sh.startswith("get_") or "ExamInfo" not in (g.callee or "") or sh[4:] not in rcond:
+                    continue
+                x = sh[4:]
+                cw = _const_of(cj.c[1])
+                bad = [(o, c, nd) for o, c, nd in rcond[x] if not _implies(cj.op, cw, o, c)]
+                ok = not bad
+                ctx.ob(RULE, f.qn, "attribute:" + x, ok, cj.where(), "written when %s %s %g; the reader keeps it when %s" % (x, cj.op, cw, " and ".join("%s %g" % (o, c) for o, c, _n in rcond[x])) if ok else "the writer stores %s when it is %s %g, but the reader (%s) keeps the parsed value only when it is %s %g: a value in between is written and then dropped" % (x, cj.op, cw, bad[0][2].where(), bad[0][0], bad[0][1]))
+                n += 1
+    return n
+
+
+# keys whose number must come back as the SAME binary value (one line of reason each)
+FULL_PRECISION_KEYS = {
+    "image scaling factor": "multiplies every stored number: an error in the 7th digit is thousands of quantisation steps for 4-byte integers",
+    "quantification units": "the same scale factor, for the LLN reader",
+    "calibration factor": "multiplies the image; stored by the format as exam information",
+    "image duration (sec)": "double: 6 digits lose fractions of a second of a frame late in the study",
+    "image relative start time (sec)": "double: idem",
+}
+
+
+def rule_k_full_precision(ctx, wfns):
+    """The numbers above are written with at least max_digits10 digits of their type: the emission is dominated by a precision()
+    change of the header stream to >= 9 (float) / 17 (double) digits with no other precision change in between."""
+    RULE = "C10.k-quantities-written-with-full-precision"
+    from engine.cfg import CFG as _CFG
+
+    n = 0
+    for f in wfns:
+        if f.body is None or not f.short.startswith(("write_basic_interfile_image_header", "write_interfile_")):
+            continue
+        ems = [e for e in _emissions(f) if e[0] in FULL_PRECISION_KEYS]
+        if not ems:
+            continue
+        cfg = _CFG(f)
+
+        def in_graph(x):
+            while x is not None and x.i not in cfg.pos:
+                x = x.parent
+            return x
+
+        pcalls = []
+        for m, what in sticky_format_changes(f):
+            if what in ("precision()", "std::setprecision"):
+                a = (m.call_args() if m.k == "CXXMemberCallExpr" else m.c[-1].strip().call_args())
+                a = a[0].strip() if a else None
+                digits = None
+                if a is not None:
+                    if "cv" in a.d:
+                        digits = int(a.get("cv"))
+                    elif isinstance(_const_of(a), float):
+                        digits = int(_const_of(a))
+                pcalls.append((m, digits))
+        seen_streams = sorted((x.line, x.get("d")) for x in f.walk() if x.k == "VarDecl" and "ofstream" in (x.get("t") or ""))
+        main_stream = seen_streams[0][1] if seen_streams else None
+        for k, vect, m, top, vals, inline in ems:
+            roots_ = [x.get("d") for x in top.walk() if x.k == "DeclRefExpr" and "ofstream" in (x.type or "")]
+            if main_stream is not None and roots_ and roots_[0] != main_stream:
+                continue  # the Analyze-style copy, not read back by STIR
+            val = [o for o in vals if o.strip().k not in ("StringLiteral", "CharacterLiteral") and not ("int" in (o.strip().type or "") and "unsigned" not in (o.strip().type or "") and o.strip().k == "DeclRefExpr")]
+            val = [o for o in val if re.search(r"\b(float|double)\b", o.strip().type or "")]
+            if not val:
+                ctx.unrec(f.qn, "no floating-point value recognised in the emission of `%s`" % k)
+                continue
+            need = 17 if "double" in (val[0].strip().type or "") else 9
+            e = in_graph(top)
+            ok, det = False, "`%s` is written with the stream's default precision (6 digits) - %s" % (k, FULL_PRECISION_KEYS[k])
+            for pc, digits in pcalls:
+                g = in_graph(pc)
+                if g is None or e is None or g.i == e.i or not cfg.dominates(g, e):
+                    continue
+                between = [q for q, _d in pcalls if q is not pc and in_graph(q) is not None and in_graph(q).i != g.i and cfg.dominates(g, in_graph(q)) and cfg.dominates(in_graph(q), e) and in_graph(q).i != e.i]
+                if between:
+                    continue
+                if digits is not None and digits >= need:
+                    ok, det = True, "written with precision %d >= max_digits10 of its type (%d)" % (digits, need)
+                else:
+                    det = "`%s` is written with precision %s, fewer than the %d digits needed to read the same %s back - %s" % (k, digits, need, "double" if need == 17 else "float", FULL_PRECISION_KEYS[k])
+            ctx.ob(RULE, f.qn, "key:" + k, ok, top.where(), det)
+            n += 1
     return n
 
 
@@ -771,6 +1132,12 @@ def run(ctx):
     if us[7] is not None:
         rule_h_header_stream_format_unchanged(ctx, fl(us[7]), fl(us[6]))
         ctx.require_count("C10.h-header-stream-format-unchanged", 8)
+    rule_i_enumerated_values_agree(ctx, ifns, hfns)
+    ctx.require_count("C10.i-enumerated-values-agree", 7)
+    rule_j_guards_agree(ctx, ifns, hfns)
+    ctx.require_count("C10.j-writer-reader-guards-agree", 2)
+    rule_k_full_precision(ctx, ifns)
+    ctx.require_count("C10.k-quantities-written-with-full-precision", 5)
     ctx.require_count("C10.a-header-keys-agree", 25)
     ctx.require_count("C10.b-short-file-is-error", 2)
     ctx.require_count("C10.c-number-types-exhaustive", 3)
